@@ -44,7 +44,7 @@ func silenceLibraryLog[L any](set func(*L)) { set(new(L)) }
 type c13case struct {
 	Transport string `json:"transport"` // adapter | nats | http
 	Op        string `json:"op"`        // request | oneway
-	Pattern   string `json:"pattern"`   // silent | late:<d> | blockwrite:<hold> | blockflush:<ctx|noctx> | never | stallbody | now
+	Pattern   string `json:"pattern"`   // silent | late:<d> | blockwrite:<hold> | blockflush:<ctx|noctx> | never | stallbody | now | busyregistry | ...
 	TimeoutNS int64  `json:"timeout_ns"`
 	SubMS     bool   `json:"sub_ms,omitempty"`
 	Control   bool   `json:"control,omitempty"`
@@ -176,6 +176,8 @@ var c13picked = []struct {
 	{"adapter", "request", "latehandoff", []int{20, 100}, []int{2, 5, 20, 50, 100, 250, 500}},
 	{"nats", "request", "closedpending", []int{100, 400}, []int{20, 50, 100, 250, 400, 1000}},
 	{"nats", "request", "brokerlost", []int{100, 400}, []int{20, 50, 100, 250, 400, 1000}},
+	{"adapter", "request", "busyregistry", []int{5, 100}, []int{1, 5, 20, 50, 100, 250, 500, 1000}},
+	{"nats", "request", "busyregistry", []int{20, 250}, []int{1, 5, 20, 50, 100, 250, 500, 1000}},
 }
 
 // concurrent late-answer bursts: callers x calls on one transport, timeout in
@@ -394,10 +396,11 @@ func runC13(tier string, args []string) int {
 		os.Setenv("VERIF_OUT", ev.ScratchDir()) // a replay never overwrites the committed evidence
 	}
 	run := ev.New("C13", tier, "exploration")
-	run.Rule("case = (transport, timeout T, peer stall pattern, Request|Oneway); adapter over a scripted TTransport (silent, response late by T+50ms / 2T / 2T+400ms, Write blocked for 5T or for good, Flush blocked with and without honouring ctx, underlying Open() stalled for 5T / for good while the call is issued), NATS on an embedded broker (subscriber that never replies, or replies late, or the client-broker TCP connection black-holed by a proxy after a healthy control request), or PublishRequest refused by a 4 KiB max_payload broker followed by a request reusing the FContext), a second call issued while the send of an earlier call on the same transport is still stalled, the transport closed / the broker connection cut T/4 into a pending call, the inbound reader held between registry lookup and delivery of call A's answer while A times out and a fresh call B (silent peer) is issued from the same goroutine (B must time out, never see a response), a write that completes after 0.8T followed by silence (bound T+300ms flat), an HTTP call next to a concurrent call with a much longer timeout on the same transport (ordered through the request-header callback), N concurrent callers x K short-timeout requests on one transport against a peer answering each T+3ms late (slowest call of the burst is what is timed), HTTP against httptest (handler answering late, never, stalling the body, or stalling d<T then closing the connection unanswered and staying silent on any further connection - bound T+300ms flat there; http.Client without and with a Timeout of its own above / below T); each case attempted 3 times on fresh transports, minimum elapsed compared with T+max(300ms,T); distinct = (transport, op, pattern, T)")
+	run.Rule("case = (transport, timeout T, peer stall pattern, Request|Oneway); adapter over a scripted TTransport (silent, response late by T+50ms / 2T / 2T+400ms, Write blocked for 5T or for good, Flush blocked with and without honouring ctx, underlying Open() stalled for 5T / for good while the call is issued), NATS on an embedded broker (subscriber that never replies, or replies late, or the client-broker TCP connection black-holed by a proxy after a healthy control request), or PublishRequest refused by a 4 KiB max_payload broker followed by a request reusing the FContext), a second call issued while the send of an earlier call on the same transport is still stalled, the transport closed / the broker connection cut T/4 into a pending call, the inbound reader held between registry lookup and delivery of call A's answer while A times out and a fresh call B (silent peer) is issued from the same goroutine (B must time out, never see a response), a write that completes after 0.8T followed by silence (bound T+300ms flat), an HTTP call next to a concurrent call with a much longer timeout on the same transport (ordered through the request-header callback), N concurrent callers x K short-timeout requests on one transport against a peer answering each T+3ms late (slowest call of the burst is what is timed), a request to a silent peer whose timeout fires while the registry's lock is busy (the monitor takes it through VerifLockRegistry at the yield point request.timedOut, i.e. after the expiry and before the call unregisters, and holds it until the call is back or 40 ms have passed: a call that is back before the release has provably left its registration in the registry at return), in the bursts every caller compares, right after its return, the registry size with the number of calls started and not yet returned (finished-before-the-read / started-after-the-read counters, so that the comparison can only err towards silence), HTTP against httptest (handler answering late, never, stalling the body, or stalling d<T then closing the connection unanswered and staying silent on any further connection - bound T+300ms flat there; http.Client without and with a Timeout of its own above / below T); each case attempted 3 times on fresh transports, minimum elapsed compared with T+max(300ms,T); distinct = (transport, op, pattern, T)")
 	run.Assume("monotonic clock of the Go runtime; a delay present in all 3 attempts of a case is attributed to the code, not to scheduling")
 	run.Assume("rig.ScriptTransport, the embedded nats-server and net/http/httptest behave as scripted")
 	run.Assume("goroutine ids parsed from runtime.Stack identify the calling goroutine in the full dump")
+	run.Assume("VerifLockRegistry takes the lock that guards every change of the registry: while the monitor holds it no registration is added or removed")
 
 	st := &c13stats{overshootMS: map[string][]float64{}, regSizes: map[string]int{}, errClasses: map[string]int{}, hooks: map[string]int{}, minHeadroom: 1e18}
 	frugal.VerifSetHook(func(point string, opid uint64) {
@@ -421,6 +424,17 @@ func runC13(tier string, args []string) int {
 
 	rng := run.Rand("c13")
 	mainCases, subCases, controls := c13cases(rng, run.Thorough())
+	if !busyRegistryAvailable() {
+		// the tree under test predates the VerifLockRegistry hook
+		keep := mainCases[:0]
+		for _, c := range mainCases {
+			if c.Pattern != "busyregistry" {
+				keep = append(keep, c)
+			}
+		}
+		mainCases = keep
+		run.Set("busy_registry_cases", "skipped: the tree under test has no VerifLockRegistry hook")
+	}
 	if replay != nil {
 		mainCases, subCases, controls = []c13case{*replay}, nil, nil
 		run.Distinct("replay")
@@ -547,6 +561,15 @@ func runCase(env *c13env, c c13case, body func() []byte) caseResult {
 		var a *attempt
 		if c.Pattern == "lateburst" {
 			a = attemptLateBurst(env, c, env.burstCalls, body())
+			a.N = i + 1
+			res.attempts = append(res.attempts, a)
+			if !a.Returned || a.Harness != "" {
+				break
+			}
+			continue
+		}
+		if c.Pattern == "busyregistry" {
+			a = attemptBusyRegistry(env, c, body())
 			a.N = i + 1
 			res.attempts = append(res.attempts, a)
 			if !a.Returned || a.Harness != "" {
@@ -696,11 +719,13 @@ func judge(run *ev.Run, st *c13stats, c c13case, res *caseResult) {
 	over := float64(minEl-c.T()) / 1e6
 	head := float64(c.bound()-minEl) / 1e6
 	st.mu.Lock()
-	if over > st.maxMinOver {
-		st.maxMinOver, st.maxMinCase = over, c.key()
-	}
-	if head < st.minHeadroom {
-		st.minHeadroom, st.minHeadCase = head, c.key()
+	if c.Pattern != "busyregistry" { // there the monitor itself keeps the call for c13BusyGrace: not the library's overshoot
+		if over > st.maxMinOver {
+			st.maxMinOver, st.maxMinCase = over, c.key()
+		}
+		if head < st.minHeadroom {
+			st.minHeadroom, st.minHeadCase = head, c.key()
+		}
 	}
 	st.mu.Unlock()
 	if minEl > c.bound() {
@@ -734,6 +759,27 @@ func judge(run *ev.Run, st *c13stats, c c13case, res *caseResult) {
 		if a.RegAfterPoll > 0 {
 			run.Violation("C13:registration-left:"+c.Transport+"/"+c.Op,
 				fmt.Sprintf("%d registration(s) left in the registry of the %s transport after %s returned (%s)", a.RegAfterPoll, c.Transport, c.Op, a.ErrClass), witness(nil))
+			break
+		}
+	}
+
+	// 4'. registration still there at the very moment the call returned
+	for _, a := range res.attempts {
+		if a.ReturnedWhileLocked {
+			run.Violation(sig("registration-left-at-return"),
+				fmt.Sprintf("%s %s (timeout %s, silent peer) returned %s while the monitor was still holding the registry's lock, taken after the timeout had fired and before the call unregistered: the call's registration was still in the registry when it returned (registry busy at the moment of the timeout: the removal was put off instead of being completed before the return)", c.Transport, c.Op, c.T(), a.ErrClass),
+				witness(nil))
+			break
+		}
+		if c.Pattern == "busyregistry" && a.RegistryLock != "" {
+			run.Add("busy_registry_attempts_lock_held_across_expiry", 1)
+		}
+	}
+	for _, a := range res.attempts {
+		if a.CallsRegLeft > 0 {
+			run.Violation(sig("registration-left-at-return"),
+				fmt.Sprintf("%d of %d concurrent %s requests (timeout %s) on one transport returned while the registry held more registrations than there were calls in flight (first: %s)", a.CallsRegLeft, a.Calls, c.Transport, c.T(), a.RegLeftWitness),
+				witness(nil))
 			break
 		}
 	}
